@@ -257,6 +257,30 @@ func (t *tailBuffer) String() string {
 	return string(t.head) + "\n...\n" + string(t.tail)
 }
 
+// crashedInHarness: in the crash trace, the first function frame below panic() that belongs either to the
+// harness (verifmc/) or to the code under test decides whose crash it is.
+func crashedInHarness(stderr string) bool {
+	i := strings.LastIndex(stderr, "\npanic(")
+	if i < 0 {
+		i = strings.Index(stderr, "goroutine ")
+		if i < 0 {
+			return false
+		}
+	}
+	for _, l := range strings.Split(stderr[i:], "\n") {
+		if strings.HasPrefix(l, "\t") || strings.HasPrefix(l, "panic(") {
+			continue
+		}
+		if strings.HasPrefix(l, "verifmc/") {
+			return true
+		}
+		if strings.HasPrefix(l, "github.com/osteele/liquid") {
+			return false
+		}
+	}
+	return false
+}
+
 func lastCaseLine(stderr string) (fam string, idx int64, ok bool) {
 	lines := strings.Split(stderr, "\n")
 	for i := len(lines) - 1; i >= 0; i-- {
@@ -326,7 +350,7 @@ func Coordinate(self string, p *Prop, tier string) int {
 					cls = "stack-overflow"
 				case strings.Contains(o2.stderr, "out of memory"):
 					cls = "oom"
-				case strings.Contains(o2.stderr, "harness:"):
+				case strings.Contains(o2.stderr, "harness:"), crashedInHarness(o2.stderr):
 					cls = "harness"
 					harnessErr = true
 				}
@@ -341,6 +365,11 @@ func Coordinate(self string, p *Prop, tier string) int {
 				}
 				if len(head) > 1500 {
 					head = head[:1500]
+				}
+				if cls == "harness" {
+					fmt.Fprintf(os.Stderr, "harness crash in %s#%d (not a verdict on the code under test):\n%s\n", fam, idx, head)
+					merged.Incomplete = append(merged.Incomplete, fmt.Sprintf("shard %d/%d after %s#%d (harness crash)", k, nw, fam, idx))
+					continue
 				}
 				merged.VioCount++
 				key := "process-" + kind + ":" + cls + ":" + fam
